@@ -27,6 +27,9 @@ func c10Boundary() []val.V {
 		val.Bool(false), val.Bool(true), val.Null(),
 		val.List(), val.Map(map[string]val.V{}),
 		val.SS("a"), val.SS(""), val.NS("1"), val.BS("\x00"), val.SS("a", "b", ""), val.NS("1", "2.5", "-3"), val.BS("a", ""),
+		// string and binary sets whose members are different TEXTS that happen to be numerals of one value (zero-padded
+		// codes, versions): different members
+		val.SS("01234", "1234"), val.SS("1.0", "1", "1.00"), val.SS("1e3", "1000", "1E3"), val.SS("0", "-0", "0.0", "O"), val.BS("7", "007"), val.BS("1.0", "1"), val.SS(" 1", "1", "1 "),
 	}
 	for _, n := range mon.Numerals {
 		b = append(b, val.Num(n))
